@@ -145,6 +145,10 @@ def route (vs : Variants) (typ fb : String) (refreshOnMiss : Bool) (outcome : Re
   else if n == strategyDiscovery then discovery vs fb refreshOnMiss outcome healthy modelEps
   else strict healthy modelEps
 
+/-- Does the call reach `discovery.RefreshEndpoints`? (only the discovery strategy, only on a miss, only if configured) -/
+def refreshes (typ : String) (refreshOnMiss : Bool) (healthy modelEps : List Ep) : Bool :=
+  factoryName typ == strategyDiscovery && (routable healthy modelEps).isEmpty && refreshOnMiss
+
 /-! ### Handlers -/
 
 inductive Handler | proxy | provider
